@@ -717,6 +717,7 @@ func specSetAFCByte(old Packet, value byte, j int) byte {
 //@ func (p *Packet) SetPayload(data []byte) (n int, err error)
 //@   props C02
 //@   paths
+//@   cases p[5] bits 0x1f
 //@   requires p != nil && specWF(p) && verifSeparate(p, data)
 //@   ensures old(specAFC(p)) == 2 ==> n == 0 && err == gots.ErrNoPayload && specBytesSame(p, old(*p), 0, 188)
 //@   ensures old(specAFC(p)) != 2 ==> err == nil && n == afMin(len(data), old(specCapacity(p)))
